@@ -8,6 +8,7 @@ package jobs
 
 import (
 	"context"
+	"encoding/base64"
 	"fmt"
 	"os"
 	"strconv"
@@ -44,6 +45,8 @@ type VerifC17Case struct {
 	Adds       []int `json:"adds"`   // entities appended to the source before run 2, 3, ...
 	Crons      int   `json:"crons"`  // further externally triggered runs once no re-run is pending
 	Timer      bool  `json:"timer"`  // let the real time.AfterFunc fire (40 ms) instead of simulating the timer
+	Transform  bool  `json:"transform"` // the job has an (identity) JavascriptTransform, so the transform gets wrapped too
+	PokeAt     int   `json:"pokeAt"`    // inner sink call number during which the same job object is started once more (-1: never)
 	Full       bool  `json:"full"`   // trigger with jobType fullsync (FullSyncPipeline)
 	Burst      int   `json:"burst"`  // > 0: that many externally triggered runs 10 ms apart while re-runs are pending (real timer, 200 ms)
 }
@@ -179,6 +182,8 @@ type verifC17Sink struct {
 	killAt    int
 	kill      func()
 	killed    bool
+	pokeAt    int
+	poke      func()
 }
 
 func (s *verifC17Sink) GetConfig() map[string]interface{} {
@@ -189,6 +194,13 @@ func (s *verifC17Sink) endFullSync(ctx context.Context, runner *Runner) error { 
 func (s *verifC17Sink) processEntities(runner *Runner, entities []*server.Entity) error {
 	call := s.calls
 	s.calls++
+	if call == s.pokeAt && s.poke != nil {
+		// a second start of the same job object while this run is in progress (cron tick, event, overlapping re-run):
+		// it gets no ticket and is skipped
+		p := s.poke
+		s.poke = nil
+		p()
+	}
 	if call == s.killAt && s.kill != nil {
 		s.killed = true
 		s.kill()
@@ -328,7 +340,7 @@ func (env *VerifC17Env) runSink(c VerifC17Case) (obs VerifC17Obs) {
 	}
 	log := &verifC17Log{}
 	env.setLog(log)
-	sink := &verifC17Sink{log: log, bad: verifC17Set(c.Bad), failCalls: verifC17Set(c.FailCalls), killAt: -1}
+	sink := &verifC17Sink{log: log, bad: verifC17Set(c.Bad), failCalls: verifC17Set(c.FailCalls), killAt: -1, pokeAt: -1}
 	j := &job{id: id, title: id, pipeline: &IncrementalPipeline{PipelineSpec{sink: sink, batchSize: 1000}},
 		runner: env.runner, errorHandlers: trigger.ErrorHandlers, dsm: env.dsm}
 	j.instrumentErrorHandling()
@@ -407,14 +419,19 @@ func (env *VerifC17Env) runJob(c VerifC17Case) (obs VerifC17Obs) {
 	if c.Rerun {
 		hs = append(hs, fmt.Sprintf(`{"errorHandler":"reRun","maxRetries":%d,"retryDelay":%d}`, c.MaxRetries, c.RetryDelay))
 	}
+	transform := ""
+	if c.Transform {
+		transform = `"transform":{"Type":"JavascriptTransform","Code":"` +
+			base64.StdEncoding.EncodeToString([]byte(`function transform_entities(entities) { return entities; }`)) + `"},`
+	}
 	jobType := JobTypeIncremental
 	if c.Full {
 		jobType = JobTypeFull
 	}
 	jobJSON := fmt.Sprintf(`{"id":"%s","title":"%s","batchSize":%d,
 		"triggers":[{"triggerType":"cron","jobType":"%s","schedule":"@every 2000s","onError":[%s]}],
-		"source":{"Type":"DatasetSource","Name":"%s"},
-		"sink":{"Type":"DevNullSink"}}`, id, id, c.Batch, jobType, strings.Join(hs, ","), dsName)
+		"source":{"Type":"DatasetSource","Name":"%s"},%s
+		"sink":{"Type":"DevNullSink"}}`, id, id, c.Batch, jobType, strings.Join(hs, ","), dsName, transform)
 	jc, err := env.sched.Parse([]byte(jobJSON))
 	if err != nil {
 		obs.Outcome = "setup-error"
@@ -437,6 +454,11 @@ func (env *VerifC17Env) runJob(c VerifC17Case) (obs VerifC17Obs) {
 	env.setLog(log)
 	sink := &verifC17Sink{log: log, bad: verifC17Set(c.Bad), failCalls: verifC17Set(c.FailCalls), killAt: c.KillAt}
 	sink.kill = func() { env.runner.killJob(id) }
+	sink.pokeAt = -1
+	if !c.Full && c.Burst == 0 && !c.Timer {
+		sink.pokeAt = c.PokeAt
+		sink.poke = func() { j.Run() }
+	}
 	j.pipeline.spec().sink = sink
 	pl := &verifC17Pipeline{p: j.pipeline}
 	j.pipeline = pl
